@@ -4,8 +4,9 @@ Parties: the real `GMRFVectorModel` / `GMRFModel` built twice (sparse and dense 
 data; the oracle (the property transcribed with exact rational arithmetic in Python: the expected
 precision is the sum over edges / vertices of the exactly inverted sample covariances placed at their
 blocks; symmetry, definiteness, sparsity pattern, Mahalanobis identities, mean); the Lean model
-(transcription of the block-sparse-row assembly, the dense scatter, the diagonal constructors and the
-two Mahalanobis branches, executed on the same inputs as exact rationals).
+(the routines of gmrf.py translated from the source text on every run and proved equal to hand-written definitions,
+which are proved equal to the executable model of the block-sparse-row assembly, the dense scatter, the diagonal
+constructors and the two Mahalanobis branches; executed on the same inputs as exact rationals).
 """
 import json
 from fractions import Fraction
@@ -14,58 +15,96 @@ from . import common
 
 PROP = "C12"
 INFO = dict(
-    technique="Lean 4 proof (block-sparse-row assembly denotes the sum of the embedded blocks for every triplet list "
-              "and every row-sorting permutation; dense scatter equals the same sum on simple graphs and is characterised "
-              "exactly (last writer wins) on every digraph; symmetry, graph sparsity, quadratic-form identity hence PSD; "
+    technique="Lean 4 proof over a model whose routines are TRANSLATED from the source text of menpo/model/gmrf.py on every "
+              "run (harness/trans_c12.py with harness/py2lean2.py + py2lean2t.py: for loops with an exit flag, try / except, "
+              "slice statements, keyword-normalised calls): _covariance_matrix_inverse, the four _create_*_precision "
+              "routines (both values of return_covariances), GMRFVectorModel.__init__, GMRFModel.__init__, "
+              "_data_to_matrix, mean, mahalanobis_distance (both classes), _mahalanobis_distance and "
+              "principal_components_analysis; 22 regenerated obligations (GenProps/C12Src.lean) prove every translated "
+              "definition equal, for all arguments, to the statement-for-statement definitions of Core/C12Src.lean, and "
+              "Lemmas/C12Src*.lean prove those equal to the executable model the property theorems are about "
+              "(block-sparse-row assembly denotes the sum of the embedded blocks for every triplet list and every "
+              "row-sorting permutation; dense scatter equals the same sum on simple graphs and is characterised exactly "
+              "(last writer wins) on every digraph; symmetry, graph sparsity, quadratic-form identity hence PSD; "
               "Mahalanobis identities; covariance / inverse contracts; the coded truncated-SVD inverse equals the truncated "
               "pseudo-inverse under numpy's SVD contract; object level = vector level; PCA of the precision; float32 "
-              "storage bound) + model/implementation correspondence and an exact-rational oracle on random graphs and "
-              "data + the statement tables of the four assembly routines and of the constructor dispatch regenerated "
-              "from the live source on every run",
-    level_text="Theorems over an executable transcription of menpo/model/gmrf.py (triplets in the coded order, argsort, "
-               "the indptr loop, BSR denotation with duplicates summed, `+=`/`=` dense scatter, diagonal constructors, "
-               "both Mahalanobis branches, _covariance_matrix_inverse with both branches, GMRFModel's as_matrix / "
-               "from_vector layer): for all graphs without repeated, antiparallel or self edges, any number of "
-               "features, both edge modes, sparse = dense = sum over edges (vertices) of the embedded inverted covariances; "
-               "the sum is symmetric, graph-sparse and satisfies x'Px = sum_e x_e' B_e x_e, hence PSD whenever the "
-               "blocks are (proved for the exact inverse and for the truncated pseudo-inverse of a sample covariance); "
-               "with n_components the coded s[:, :n] diag(1/v[:n]) d[:n, :] is proved equal to the truncated "
-               "pseudo-inverse sum_{i<n} w_i w_i'/(sigma_i |w_i|^2) of any orthogonal eigen-decomposition (numpy's SVD "
-               "contract, symmetric input, separated cut), which the model evaluates exactly on data with rational "
-               "eigen-decompositions after verifying the decomposition itself; it satisfies CB = BC = projector, BCB = B, "
-               "equals the inverse for full rank, and only lowers Mahalanobis distances; for every digraph without "
-               "self loops (antiparallel pairs included) the dense scatter is proved to hold the edge sum on diagonal "
-               "blocks and the last writer on off-diagonal blocks; Mahalanobis distances are non-negative, zero at the "
-               "mean, equal for both storages and for batched vs single queries (vector and object level); the mean is "
-               "the sample mean.  Tied to /repo by building real models on random "
-               "undirected graphs, trees, antiparallel-free digraphs and edgeless graphs (2-7 vertices, 1-3 features, "
-               "modes x biases x dtypes x rank truncation x input layouts x incremental flag) and diffing precision "
-               "entries, indptr, mean, mean() point sets and distances against the Lean driver; digraphs with "
-               "antiparallel pairs are diffed against the model only; an independent exact-rational oracle decides the "
-               "property on the real code; the assembly statements are re-extracted from the source and compared with "
-               "the model's tables by `decide`.",
-    level_note="Trusted: Lean kernel; axioms propext/Classical.choice/Quot.sound; Python harness; driver parser; the AST "
-               "reader of extract_c12.py. "
-               "Contracts (modelled, checked numerically each run): scipy's bsr_matrix denotation (toarray / dot sum "
-               "duplicate blocks, any column order); np.linalg.inv returns the inverse (the model inverts exactly and "
-               "checks C*B=1 itself); np.linalg.svd (C = U diag(s) Vh, orthogonal factors, s descending: spot-verified "
-               "on the first unit of every truncated case, together with the common threshold at the cut); np.cov. "
-               "Float rounding is absorbed by 1e-9 (float64) / 1e-4 (float32) "
+              "storage bound) + model/implementation correspondence (the driver also executes the translated-equal "
+              "definitions) and an exact-rational oracle on random graphs and data",
+    level_text="The routines the theorems speak about are the current source text: the translator turns "
+               "_covariance_matrix_inverse (np.atleast_2d, the n_components test, the try / bare except around the "
+               "truncated-SVD formula), _create_dense_precision / _create_sparse_precision / the two diagonal "
+               "constructors (the mode guard, the loops over graph edges / vertices, which columns of X are read, np.cov "
+               "with the bias flag, += versus = on diagonal / off-diagonal slices in the coded order, the count-indexed "
+               "stores into all_blocks / rows / columns, rows.argsort() and the three re-orderings, the indptr loop with "
+               "both branches, bsr_matrix), GMRFVectorModel.__init__ (_data_to_matrix, n_features_per_vertex, the "
+               "constructor dispatch on n_edges == 0 and sparse, the partial(mode=...), which keyword gets which "
+               "attribute, incremental / return_covariances), GMRFModel.__init__ (as_matrix, n_samples, the call of the "
+               "base constructor bound through its LIVE signature, so positional and keyword call sites are the same "
+               "thing and a swapped position is a swapped argument), the defaults of both constructors, mean(), both "
+               "mahalanobis_distance wrappers, _mahalanobis_distance (mean subtraction, sparse / dense branch, single "
+               "sample -> number, square root) and principal_components_analysis into Lean; GenProps/C12Src.lean "
+               "re-proves on every run that each equals its hand-written counterpart (case split on flags and modes, "
+               "definitional unfolding, tests turned the same way round: renamed temporaries, re-ordered independent "
+               "statements and inverted tests keep the proofs, a changed decision breaks them).  Theorems "
+               "(coded_precision_correct, coded_diag_precision_correct, coded_constructor_correct, "
+               "coded_mahalanobis_correct, vecInit_dense_eq_build, vecInit_sparse_eq, covInverseCoded_none / _some ...): "
+               "for all graphs without repeated, antiparallel or self edges, any number of features, both edge modes, "
+               "both bias conventions, any inverse routine returning blocks of the edge size and any argsort keeping "
+               "numpy's promise, the translated sparse and dense constructors invert the same covariances, the stored "
+               "block-sparse-row matrix denotes the dense one = sum over edges (vertices) of the embedded inverted "
+               "covariances, x'Px = sum_e x_e' B_e x_e; with the translated _covariance_matrix_inverse and "
+               "n_components=None the translated GMRFVectorModel.__init__ is the model's build (raises exactly when a "
+               "covariance is singular, also for a single feature thanks to np.atleast_2d; symmetric, PSD, "
+               "graph-sparse precision, sample mean); with n_components the coded slices and products are the model's "
+               "svdTrunc, proved equal to the truncated pseudo-inverse sum_{i<n} w_i w_i'/(sigma_i |w_i|^2) of any "
+               "orthogonal eigen-decomposition (numpy's SVD contract, symmetric input, separated cut), which the model "
+               "evaluates exactly on data with rational eigen-decompositions after verifying the decomposition itself; "
+               "it satisfies CB = BC = projector, BCB = B, equals the inverse for full rank, and only lowers Mahalanobis "
+               "distances; for every digraph without self loops (antiparallel pairs included) the dense scatter is "
+               "proved to hold the edge sum on diagonal blocks and the last writer on off-diagonal blocks; the translated "
+               "_mahalanobis_distance returns (x_i - mu)' P (x_i - mu) for either storage, batched or single (a number "
+               "for one sample), non-negative for a PSD precision, zero at the mean.  Tied to /repo additionally by "
+               "building real models on random undirected graphs, trees, antiparallel-free digraphs and edgeless graphs "
+               "(2-7 vertices, 1-3 features, modes x biases x dtypes x rank truncation x training data as float64 / "
+               "float32 / int64 / int32 arrays, Fortran order, lists, point sets x incremental flag; queries as float64 / "
+               "float32 / integer arrays, lists and point sets, ONE query object re-used for every call, every call "
+               "digesting the caller's objects and both models) and diffing precision entries, indptr, mean, mean() "
+               "point sets and distances against the Lean driver (which runs the translated-equal definitions on half "
+               "of the exact cases); digraphs with antiparallel pairs are diffed against the model only; an independent "
+               "exact-rational oracle decides the property on the real code.",
+    level_note="Trusted: Lean kernel; axioms propext/Classical.choice/Quot.sound; Python harness; driver parser; the "
+               "translator (harness/py2lean2.py, py2lean2t.py) and the C12 vocabulary (harness/trans_c12.py + part 1 of "
+               "Core/C12Src.lean: what each numpy / scipy expression of gmrf.py denotes on exact rectangular arrays; "
+               "numpy's shape and index errors are not modelled). "
+               "Contracts (parameters of the translated definitions, checked numerically each run): scipy's bsr_matrix "
+               "denotation (toarray / dot sum duplicate blocks, any column order); ndarray.argsort (a permutation that "
+               "sorts, ties in any order: ArgsortOK, satisfied by the driver's insertion argsort, theorem argsortIns_ok); "
+               "np.linalg.inv returns the inverse (the model inverts exactly and checks C*B=1 itself); np.linalg.svd "
+               "(C = U diag(s) Vh, orthogonal factors, s descending: spot-verified on the first unit of every truncated "
+               "case, together with the common threshold at the cut); np.cov (0-dimensional for a single column); np.sqrt. "
+               "Float rounding is absorbed by 1e-9 (float64) / 1e-4 (float32 precision or float32 training data) "
                "relative tolerances on inputs whose exact inverses are bounded.",
     rule="a case = one (graph, features per vertex, mode, bias, dtype, n_components, data set, query set) built in both "
          "storages; distinct = distinct (graph kind, V, edge set, k, mode, bias, dtype, n_components, data hash); "
          "non-trivial = at least one edge or at least two vertices with k*V >= 2; digraphs with antiparallel pairs are "
          "outside the property's quantifier and are counted separately (model correspondence only)",
-    partial=["rank truncation on generic data: the eigen-decomposition of a generic covariance is irrational, so for "
-             "randomly drawn data with n_components below the block size the model still receives the blocks from the "
-             "harness (float eigen-decomposition) and only their placement, symmetry and definiteness are covered by "
-             "theorems; exactness of the truncated blocks is a theorem plus an exact model evaluation on the designed "
-             "data families with rational eigen-decompositions (Hadamard designs: every graph kind, both modes, 1-3 "
-             "features) and for n_components >= block size; elsewhere it is decided by the oracle",
-             "principal_components_analysis: the theorem precision_pca is about an exact eigen-decomposition of the "
-             "precision; the returned components are checked numerically as eigenpairs of the expected precision "
-             "(dense storage; the sparse branch goes through ARPACK and returns one component fewer, observed and "
-             "counted, not judged); incremental updates belong to C11"],
+    partial=["rank truncation on generic data: the n_components branch itself (slices, products, the try / except "
+             "fallback) is translated and proved equal to the model's svdTrunc, but the eigen-decomposition of a generic "
+             "covariance is irrational, so for randomly drawn data with n_components below the block size the model "
+             "still receives the blocks from the harness (float eigen-decomposition) and only their placement, symmetry "
+             "and definiteness are covered by theorems; exactness of the truncated blocks is a theorem plus an exact "
+             "model evaluation on the designed data families with rational eigen-decompositions (Hadamard designs: "
+             "every graph kind, both modes, 1-3 features) and for n_components >= block size; elsewhere it is decided "
+             "by the oracle; the constructor-level theorem (coded_constructor_correct) is stated for n_components=None, "
+             "with n_components the chain is coded_precision_correct (any inverse routine returning blocks of the "
+             "edge size) + covInverseCoded_some + svdTrunc_eq_specTrunc + truncChecked_spec",
+             "principal_components_analysis: which arguments reach init_from_covariance_matrix is translated "
+             "(genVecPca / genObjPca: the precision, is_inverse=True, centred=True, the model's mean and sample count); "
+             "the theorem precision_pca is about an exact eigen-decomposition of the precision; the returned "
+             "components are checked numerically as eigenpairs of the expected precision (dense storage; the sparse "
+             "branch goes through ARPACK and returns one component fewer, observed and counted, not judged); "
+             "incremental updates belong to C11 (for return_covariances=True only 'same matrix as the plain call' is "
+             "proved: denseCodedRC_eq, sparseCodedRC_eq, ...)"],
     assumptions=["generated data sets have exactly invertible covariances whose inverse entries are bounded by 256 "
                  "(checked on the exact rational inverse before the implementation runs)",
                  "for rank truncation the kept and dropped eigenvalues of every covariance differ by a factor >= 1.5"],
@@ -130,13 +169,40 @@ THEOREMS = [
     "MenpoModel.C12.precision_pca",
     "MenpoModel.C12.storage_rounding_bound",
     "MenpoModel.C12.storage_rounding_bound_rel",
-    # extension: the model is the interpretation of the statement tables regenerated from the source
-    "MenpoModel.C12.denseStep_eq_table",
-    "MenpoModel.C12.edgeTrips_eq_table",
-    "MenpoModel.C12.denseDiag_eq_table",
-    "MenpoModel.C12.diagTrips_eq_table",
-    "MenpoModel.C12.indptrStep_eq_table",
-    "MenpoModel.C12.build_dispatch",
+    # extension (translator tie): the routines as coded (= the translation of the source text, GenProps/C12Src.lean)
+    # compute what the model computes; the property for them
+    "MenpoModel.C12.Src.flagLoop",
+    "MenpoModel.C12.Src.denseWrite_eq_denseStep",
+    "MenpoModel.C12.Src.denseCoded_eq",
+    "MenpoModel.C12.Src.denseDiagCoded_eq",
+    "MenpoModel.C12.Src.sparseWrite_padded",
+    "MenpoModel.C12.Src.indptrBody_eq",
+    "MenpoModel.C12.Src.sparseCoded_eq",
+    "MenpoModel.C12.Src.sparseDiagCoded_eq",
+    "MenpoModel.C12.Src.denseCodedRC_eq",
+    "MenpoModel.C12.Src.sparseCodedRC_eq",
+    "MenpoModel.C12.Src.denseDiagCodedRC_eq",
+    "MenpoModel.C12.Src.sparseDiagCodedRC_eq",
+    "MenpoModel.C12.Src.edgeCov_eq",
+    "MenpoModel.C12.Src.vertexCov_eq",
+    "MenpoModel.C12.Src.covInverseCoded_none",
+    "MenpoModel.C12.Src.covInverseCoded_some",
+    "MenpoModel.C12.Src.npInv_scalar_refused",
+    "MenpoModel.C12.Src.vecInit_dense_eq_build",
+    "MenpoModel.C12.Src.vecInit_sparse_eq",
+    "MenpoModel.C12.Src.coded_bsr_denotes_sum",
+    "MenpoModel.C12.Src.argsortIns_ok",
+    "MenpoModel.C12.Src.mahalanobisCore_eq",
+    "MenpoModel.C12.Src.coded_precision_correct",
+    "MenpoModel.C12.Src.coded_diag_precision_correct",
+    "MenpoModel.C12.Src.coded_constructor_correct",
+    "MenpoModel.C12.Src.coded_mahalanobis_correct",
+    "MenpoModel.C12.Src.coded_objInit",
+    "MenpoModel.C12.Src.vecInit_list",
+    "MenpoModel.C12.Src.vecInit_list_all",
+    "MenpoModel.C12.Src.objVec_eq_asVector",
+    "MenpoModel.C12.Src.objInit_eq_vecInit_asMatrix",
+    "MenpoModel.C12.Src.vecInit_incremental",
 ]
 
 TOL64 = 1e-9
@@ -375,19 +441,25 @@ def gen_case(rng, force=None):
         N = dim + rng.randint(3, 8)
         den = rng.choice([4, 4, 1])                   # den 1: integer data (may be handed over with an integer dtype)
         X = [[Fraction(rng.randint(-24, 24), den) for _ in range(V * k)] for _ in range(N)]
-        Q = [[Fraction(rng.randint(-24, 24), 4) for _ in range(V * k)] for _ in range(m)]
+        qden = rng.choice([4, 1])
+        Q = [[Fraction(rng.randint(-24, 24), qden) for _ in range(V * k)] for _ in range(m)]
     integral = all(x.denominator == 1 for r in X for x in r)
-    layout = force.get("layout") or rng.choice(["array", "array", "list", "fortran"] + (["int", "int"] if integral else []))
+    # storage of the training data: float64 (C / Fortran order, list of rows), float32 (exact: small dyadic values),
+    # int64 / int32 when the data are whole numbers
+    layout = force.get("layout") or rng.choice(["array", "array", "list", "fortran", "float32"] +
+                                               (["int", "int", "int32"] if integral else []))
     vectorizable = bool(k in (2, 3) and rng.random() < 0.3)
-    if vectorizable:
-        layout = "array"
+    if vectorizable and layout in ("list", "fortran"):
+        layout = "array"                              # PointCloud samples: float64 / float32 / integer points
+    q_integral = all(Fraction(x).denominator == 1 for r in Q for x in r)
+    qkind = force.get("qkind") or rng.choice(["float64", "float64", "float32", "list"] + (["int", "int", "int32"] if q_integral else []))
     extra = []
     if layout == "list" and rng.random() < 0.5:
         # a longer list handed over with n_samples=len(X): _data_to_matrix keeps the first n_samples rows only
         extra = [[Fraction(rng.randint(-24, 24), 4) for _ in range(V * k)] for _ in range(rng.randint(1, 3))]
     return dict(kind=kind, V=V, k=k, edges=[list(e) for e in edges], root=root, mode=mode, bias=bias, dtype=dtype,
                 n_components=nc, X=[[str(x) for x in r] for r in X], Q=[[str(x) for x in r] for r in Q],
-                vectorizable=vectorizable, layout=layout, incremental=bool(rng.random() < 0.25), designed_A=A,
+                vectorizable=vectorizable, layout=layout, qkind=qkind, incremental=bool(rng.random() < 0.25), designed_A=A,
                 X_extra=[[str(x) for x in r] for r in extra])
 
 
@@ -498,8 +570,32 @@ def placement_abs(case, units, blocks):
 
 # ------------------------------------------------------------------------------- implementation runner
 
+NP_OF_LAYOUT = {"float32": "float32", "int": "int64", "int32": "int32"}
+
+
+def digest(obj):
+    """bytes of everything a caller could see change: ndarray / scipy sparse / list of these / PointCloud"""
+    import numpy as np
+    import scipy.sparse as sp
+    if sp.issparse(obj):
+        return b"S" + b"".join(np.ascontiguousarray(getattr(obj, a)).tobytes() for a in ("data", "indices", "indptr")
+                               if hasattr(obj, a))
+    if isinstance(obj, np.ndarray):
+        return str(obj.dtype).encode() + str(obj.shape).encode() + np.ascontiguousarray(obj).tobytes()
+    if isinstance(obj, (list, tuple)):
+        return b"L" + b"|".join(digest(x) for x in obj)
+    if hasattr(obj, "points"):
+        return b"P" + digest(obj.points)
+    return repr(obj).encode()
+
+
+def model_digest(model):
+    return digest(model.precision) + b"#" + digest(model.mean_vector)
+
+
 def build_models(case):
-    """('ok', (sparse_model, dense_model, graph)) | ('exc', name, message)"""
+    """('ok', (sparse_model, dense_model, graph), info) | ('exc', name, message);
+    info['data_modified'] says whether a constructor changed the training data it was handed"""
     import numpy as np
     try:
         g = make_graph(case["kind"], case["V"], case["edges"], case["root"])
@@ -519,41 +615,63 @@ def build_models(case):
                 kw["n_samples"] = len(X)
         elif layout == "fortran":
             Xin = np.asfortranarray(X)
-        elif layout == "int":
-            Xin = X.astype(np.int64)
+        elif layout in NP_OF_LAYOUT:
+            Xin = X.astype(getattr(np, NP_OF_LAYOUT[layout]))
         if case["vectorizable"]:
             from menpo.model import GMRFModel
             from menpo.shape import PointCloud
-            samples = [PointCloud(r.reshape(case["V"], case["k"])) for r in X]
+            pdt = getattr(np, NP_OF_LAYOUT.get(layout, "float64"))
+            samples = [PointCloud(r.reshape(case["V"], case["k"]).astype(pdt)) for r in X]
+            before = digest(samples)
             ms = GMRFModel(samples, g, sparse=True, **kw)
             md = GMRFModel(samples, g, sparse=False, **kw)
+            modified = digest(samples) != before
         else:
             from menpo.model import GMRFVectorModel
+            Xd = [r.copy() for r in Xin] if layout == "list" else Xin
+            before = digest(Xin), digest(Xd)
             ms = GMRFVectorModel(Xin, g, sparse=True, **kw)
-            md = GMRFVectorModel([r.copy() for r in Xin] if layout == "list" else Xin, g, sparse=False, **kw)
-        return "ok", (ms, md, g)
+            md = GMRFVectorModel(Xd, g, sparse=False, **kw)            # the SAME array object for both storages
+            modified = (digest(Xin), digest(Xd)) != before
+        return "ok", (ms, md, g), dict(data_modified=modified)
     except Exception as e:
         return "exc", type(e).__name__, str(e)[:120]
 
 
-def mahal(model, case, q, single):
-    """Mahalanobis through the public API; q 2-D array; single -> one call per row"""
+def make_query(case):
+    """the query object handed to mahalanobis_distance (ONE object, re-used for every call of the case), and the float64
+    matrix of its rows"""
     import numpy as np
+    q = np.array([[float(Fraction(x)) for x in r] for r in case["Q"]])
+    kind = case.get("qkind", "float64")
     if case["vectorizable"]:
         from menpo.shape import PointCloud
-        pcs = [PointCloud(r.reshape(case["V"], case["k"])) for r in q]
+        pdt = {"float32": np.float32, "int": np.int64, "int32": np.int32}.get(kind, np.float64)
+        return [PointCloud(r.reshape(case["V"], case["k"]).astype(pdt)) for r in q], q
+    if kind == "list":
+        return [[float(x) for x in r] for r in q], q
+    if kind in ("float32", "int", "int32"):
+        return q.astype({"float32": np.float32, "int": np.int64, "int32": np.int32}[kind]), q
+    return q.copy(), q
+
+
+def mahal(model, case, qobj, single):
+    """Mahalanobis through the public API; qobj from make_query (the same object for every call); single -> one call
+    per sample (rows of the array / elements of the list are handed over as they are: views, not copies)"""
+    import numpy as np
+    if case["vectorizable"]:
         if single:
-            return [float(model.mahalanobis_distance(p)) for p in pcs]
-        return np.atleast_1d(model.mahalanobis_distance(pcs)).astype(float).tolist()
+            return [float(model.mahalanobis_distance(p)) for p in qobj]
+        return np.atleast_1d(model.mahalanobis_distance(qobj)).astype(float).tolist()
     if single:
-        return [float(model.mahalanobis_distance(r)) for r in q]
-    return np.atleast_1d(model.mahalanobis_distance(q)).astype(float).tolist()
+        return [float(model.mahalanobis_distance(r)) for r in qobj]
+    return np.atleast_1d(model.mahalanobis_distance(qobj)).astype(float).tolist()
 
 
 def py_replay(case):
     return ("import numpy as np; from fractions import Fraction as F\n"
             "from menpo.model import GMRFVectorModel; from menpo.shape import UndirectedGraph, DirectedGraph, Tree\n"
-            "X = np.array([[float(F(x)) for x in r] for r in case['X']])   # handed over as case['layout'] (a list is followed by the rows case['X_extra'] and n_samples=len(X)), incremental=case['incremental']\n"
+            "X = np.array([[float(F(x)) for x in r] for r in case['X']])   # handed over as case['layout'] (array / fortran / float32 / int = int64 / int32; a list is followed by the rows case['X_extra'] and n_samples=len(X)), incremental=case['incremental']; the queries case['Q'] as case['qkind'] (ONE object re-used for every call)\n"
             "g = <%s on %d vertices, edges %r%s>\n"
             "ms = GMRFVectorModel(X, g, mode=%r, n_components=%r, dtype=np.%s, bias=%r, sparse=True)\n"
             "md = GMRFVectorModel(X, g, ..., sparse=False); compare ms.precision.toarray(), md.precision, "
@@ -581,7 +699,9 @@ def run_case(ctx, case, lines, pending, with_model=True):
     E = expected_precision(case, units, blocks)
     Ef = np.array([[float(x) for x in r] for r in E])
     scale = float(np.abs(Ef).max())
-    tol = TOL64 if case["dtype"] == "float64" else TOL32
+    # single precision enters through the requested dtype of the precision or through float32 training data (the mean is
+    # then accumulated and stored in single precision)
+    tol = TOL64 if case["dtype"] == "float64" and case.get("layout") != "float32" else TOL32
     rp = dict(case=case, how=py_replay(case))
     site = "C12/%s" % ("diagonal" if not edges else case["mode"])
     sig = (case["kind"], V, tuple(sorted(edges)), k, case["mode"], case["bias"], case["dtype"], case["n_components"],
@@ -592,6 +712,7 @@ def run_case(ctx, case, lines, pending, with_model=True):
                 "bias:%d" % case["bias"], "dtype:" + case["dtype"],
                 "n_components:" + ("none" if case["n_components"] is None else "truncated"),
                 "api:" + ("GMRFModel" if case["vectorizable"] else "GMRFVectorModel"),
+                "data:" + case.get("layout", "array"), "query:" + case.get("qkind", "float64"),
                 "isolated:%s" % (len({v for e in edges for v in e}) < V and bool(edges))):
         ctx.count(key)
 
@@ -610,6 +731,8 @@ def run_case(ctx, case, lines, pending, with_model=True):
             ctx.fail(site + "/build", pattern, "constructing the model raises %s: %s" % (res[1], res[2]), rp)
     else:
         ms, md, g = res[1]
+        ctx.check(not res[2]["data_modified"], site + "/build", "training-data-modified",
+                  "a constructor changed the training data it was handed (array / list / samples of the caller)", rp)
         try:
             oracle(ctx, case, ms, md, E, Ef, exact, scale, tol, site, rp, units, blocks)
         except common.Infra:
@@ -663,7 +786,8 @@ def model_line(ctx, case, cid, m, model_op, g_edges):
             full = X + [[Fraction(x) for x in r] for r in case["X_extra"]]
             return "%s build-ns %s %d %d %d 0 %d %s %s %s" % (cid, m, k, V, case["bias"], len(X), etoks, common.fmat(full),
                                                             common.fmat(Q)), "build-ns"
-        return "%s build %s %d %d %d %s %s %s" % (cid, m, k, V, case["bias"], etoks, common.fmat(X), common.fmat(Q)), "build"
+        op = "build-src" if (len(X) + len(g_edges) + V + k + int(case["bias"])) % 2 == 0 or model_op == "build-src" else "build"
+        return "%s %s %s %d %d %d %s %s %s" % (cid, op, m, k, V, case["bias"], etoks, common.fmat(X), common.fmat(Q)), op
     if hows == {"spec"}:
         specs = " ".join("%d %s %s" % (len(sp[0]), common.fqs(sp[0]), common.fmat(sp[1])) for _, _, sp in got)
         return "%s trunc %s %d %d %d %d %s %d %s %s %s" % (
@@ -745,13 +869,31 @@ def oracle(ctx, case, ms, md, E, Ef, exact, scale, tol, site, rp, units=None, bl
         mv = np.asarray(mod.mean_vector, dtype=float)
         mm = mod.mean()
         mm = np.asarray(mm.as_vector() if hasattr(mm, "as_vector") else mm, dtype=float)
-        ok = mv.shape == (n,) and mm.shape == (n,) and all(common.close(mv[j], mu[j], 8.0, TOL64) and
-                                                           common.close(mm[j], mu[j], 8.0, TOL64) for j in range(n))
+        mtol = TOL32 if case.get("layout") == "float32" else TOL64
+        ok = mv.shape == (n,) and mm.shape == (n,) and all(common.close(mv[j], mu[j], 8.0, mtol) and
+                                                           common.close(mm[j], mu[j], 8.0, mtol) for j in range(n))
         ctx.check(ok, site + "/mean/" + name, "not-sample-mean", "model mean %r is not the sample mean %r" % (
             mv.tolist(), [float(x) for x in mu]), rp)
-    # Mahalanobis
+    # Mahalanobis: ONE query object (float64 / float32 / integer array, list, list of point sets) is handed to every
+    # call - sparse and dense model, batched and one sample at a time, asked twice; the caller's object and the two
+    # models are digested before and after every call
     Q = [[Fraction(x) for x in r] for r in case["Q"]]
-    q = np.array([[float(x) for x in r] for r in Q])
+    qobj, q = make_query(case)
+    models = (("sparse", ms), ("dense", md))
+
+    def call(label, fn):
+        before_q = digest(qobj)
+        before_m = {name: model_digest(mod) for name, mod in models}
+        out = fn()
+        ctx.check(digest(qobj) == before_q, site + "/mahalanobis/caller-array", "query-modified-in-place",
+                  "the query object handed to mahalanobis_distance (%s, %s) was modified by the call (%s): the next "
+                  "call with the same object answers for another point" % (
+                      case.get("qkind", "float64"), "GMRFModel" if case["vectorizable"] else "GMRFVectorModel", label), rp)
+        for name, mod in models:
+            ctx.check(model_digest(mod) == before_m[name], site + "/mahalanobis/repeat/" + name, "model-changed-by-query",
+                      "precision or mean_vector of the %s model changed during the call (%s)" % (name, label), rp)
+        return out
+
     want = []
     for r in Q:
         z = [a - b for a, b in zip(r, mu)]
@@ -763,9 +905,10 @@ def oracle(ctx, case, ms, md, E, Ef, exact, scale, tol, site, rp, units=None, bl
     dscale = max([abs(x) for x in want] + [scale * float(np.abs(q).max() + 8.0) ** 2 * 4])
     dbound = tol * (1.0 + dscale)
     got = {}
-    for name, mod in (("sparse", ms), ("dense", md)):
+    for name, mod in models:
         for single in (False, True):
-            got[name, single] = mahal(mod, case, q, single)
+            got[name, single] = call("%s %s" % (name, "single" if single else "batched"),
+                                     lambda mod=mod, single=single: mahal(mod, case, qobj, single))
     for (name, single), d in got.items():
         lbl = "%s/%s" % (name, "single" if single else "batched")
         if len(d) != len(want):
@@ -782,28 +925,25 @@ def oracle(ctx, case, ms, md, E, Ef, exact, scale, tol, site, rp, units=None, bl
             ctx.check(all(abs(a - b) <= dbound for a, b in zip(got[name, False], got[name, True])),
                       site + "/mahalanobis/batch-vs-single/" + name, "differ", "batched %r single %r" % (
                           got[name, False], got[name, True]), rp)
-    # asking again gives the same answer (neither the model nor the caller's array is touched by a query)
-    q_before = q.copy()
-    state = {name: (np.asarray(mod.precision.toarray() if sp.issparse(mod.precision) else mod.precision).copy(),
-                    np.asarray(mod.mean_vector).copy()) for name, mod in (("sparse", ms), ("dense", md))}
-    for name, mod in (("sparse", ms), ("dense", md)):
-        again = mahal(mod, case, q, False)
+    # asking again gives the same answer
+    for name, mod in models:
+        again = call(name + " batched, second time", lambda mod=mod: mahal(mod, case, qobj, False))
         ctx.check(len(again) == len(got[name, False]) and all(abs(a - b) <= dbound for a, b in zip(again, got[name, False])),
                   site + "/mahalanobis/repeat/" + name, "differ",
                   "the same batched query asked twice: %r then %r" % (got[name, False], again), rp)
-        Pn = np.asarray(mod.precision.toarray() if sp.issparse(mod.precision) else mod.precision)
-        ctx.check(np.array_equal(Pn, state[name][0]) and np.array_equal(np.asarray(mod.mean_vector), state[name][1]),
-                  site + "/mahalanobis/repeat/" + name, "model-changed-by-query",
-                  "precision or mean_vector changed while answering a query", rp)
-    if not np.array_equal(q, q_before):
-        ctx.count("observation:query-array-mutated")
-    for name, mod in (("sparse", ms), ("dense", md)):
-        mmean = mod.mean()
-        d0 = float(mod.mahalanobis_distance(mmean))
+    for name, mod in models:
+        mmean = call(name + " mean()", lambda mod=mod: mod.mean())
+        d0 = float(call(name + " distance of mean()", lambda mod=mod: mod.mahalanobis_distance(mmean)))
         ctx.check(abs(d0) <= dbound, site + "/mahalanobis/at-mean/" + name, "non-zero", "distance of the mean is %r" % d0, rp)
-        ds = float(mod.mahalanobis_distance(mmean, subtract_mean=True, square_root=True))
+        ds = float(call(name + " sqrt distance of mean()",
+                        lambda mod=mod: mod.mahalanobis_distance(mmean, subtract_mean=True, square_root=True)))
         ctx.check(abs(ds) <= max(dbound, dbound ** 0.5), site + "/mahalanobis/at-mean/" + name, "non-zero-sqrt",
                   "square-root distance of the mean is %r" % ds, rp)
+        # the model's own mean vector handed back as a query (an alias of the model's state for the vector model)
+        mv = mod.mean_vector
+        d1 = float(call(name + " distance of mean_vector", lambda mod=mod, mv=mv: mod.mahalanobis_distance(
+            mv if not case["vectorizable"] else mmean)))
+        ctx.check(abs(d1) <= dbound, site + "/mahalanobis/at-mean/" + name, "non-zero", "distance of mean_vector is %r" % d1, rp)
     # contract of scipy's BSR (trusted base, spot-verified): toarray() sums the stored blocks
     if sp.issparse(ms.precision) and hasattr(ms.precision, "indptr") and hasattr(ms.precision, "blocksize"):
         b = ms.precision
@@ -839,7 +979,8 @@ def oracle(ctx, case, ms, md, E, Ef, exact, scale, tol, site, rp, units=None, bl
             if not (sv[r - 1] > tau * (1 + 1e-9) - 1e-12 and (r == d or sv[r] <= tau * (1 + 1e-9) + 1e-12)):
                 raise common.Infra("np.linalg.svd singular values do not share the cut of the exact eigenvalues")
             ctx.count("contract:svd-common-threshold")
-    if exact and case["n_components"] is None and not case.get("incremental") and case["dtype"] == "float64":
+    if exact and case["n_components"] is None and not case.get("incremental") and case["dtype"] == "float64" \
+            and case.get("layout") != "float32":
         pca_observation(ctx, case, ms, md, Ef, scale, site, rp)
     if exact and case["n_components"] is None:
         # contract of np.linalg.inv spot-verified: C * inv(C) = 1 on the first unit
@@ -968,13 +1109,14 @@ def compare_one(ctx, reply, item):
             if ip != [int(t) for t in out["IP"]]:
                 ctx.mismatch("indptr", "indptr %r, model %r" % (ip, out["IP"]), rp)
         mu = [float(Fraction(t)) for t in out["MU"]]
-        if not all(common.close(a, b, 8.0, TOL64) for a, b in zip(np.asarray(ms.mean_vector, dtype=float).tolist(), mu)):
+        mtol = TOL32 if case.get("layout") == "float32" else TOL64
+        if not all(common.close(a, b, 8.0, mtol) for a, b in zip(np.asarray(ms.mean_vector, dtype=float).tolist(), mu)):
             ctx.mismatch("mean", "mean differs from the model", rp)
-        q = np.array([[float(Fraction(x)) for x in r] for r in case["Q"]])
+        qobj, q = make_query(case)
         dscale = scale * float(np.abs(q).max() + 8.0) ** 2 * 4
         try:
-            ds = mahal(ms, case, q, False)
-            dd = mahal(md, case, q, False)
+            ds = mahal(ms, case, qobj, False)
+            dd = mahal(md, case, qobj, False)
         except Exception:
             continue  # already an oracle failure
         MS = [float(Fraction(t)) for t in out["MS"]]
@@ -999,11 +1141,11 @@ def compare_one(ctx, reply, item):
                 pts = np.asarray(ms.mean().points, dtype=float).ravel().tolist()
             except Exception as e:
                 pts = []
-            if len(pts) != len(MO) or not all(common.close(a, b, 8.0, TOL64) for a, b in zip(pts, MO)):
+            if len(pts) != len(MO) or not all(common.close(a, b, 8.0, mtol) for a, b in zip(pts, MO)):
                 ctx.mismatch("mean-object", "mean() points %r, model %r" % (pts, MO), rp)
             M1 = [float(Fraction(t)) for t in out.get("M1", [])]
             try:
-                d1 = mahal(ms, case, q, True)
+                d1 = mahal(ms, case, qobj, True)
             except Exception:
                 d1 = []
             if len(d1) != len(M1) or not all(abs(a - b) <= tol * (1 + dscale) for a, b in zip(d1, M1)):
@@ -1031,7 +1173,7 @@ def run_outside_case(ctx, case, lines, pending):
     ctx.count("outside-quantifier:antiparallel-digraph")
     ctx.count("outside-quantifier:antiparallel-pairs=%d" % (len(pairs) // 2))
     scale = float(np.abs(np.asarray(md.precision, dtype=float)).max())
-    tol = TOL64 if case["dtype"] == "float64" else TOL32
+    tol = TOL64 if case["dtype"] == "float64" and case.get("layout") != "float32" else TOL32
     cid = "m%d" % len(lines)
     line = model_line(ctx, case, cid, "c" if case["mode"] == "concatenation" else "s", "build", g_edges)
     if line is None:
@@ -1158,15 +1300,30 @@ def search(ctx):
 
 
 def generated(ctx):
-    """statement tables of the assembly routines, re-read from the live source; `decide` obligations in GenProps/C12"""
-    from . import extract_c12
-    ok = common.build_generated(ctx, extract_c12.lean_files(), extract_c12.TARGETS, extract_c12.N_OBLIGATIONS)
-    ctx.count("generated-tables:" + ("ok" if ok else "broken"))
+    """the routines of menpo/model/gmrf.py translated from the source text of the working tree (harness/trans_c12.py);
+    GenProps/C12Src.lean proves every translated definition equal to its `…Coded` counterpart of Core/C12Src.lean"""
+    from . import trans_c12
+    files, reasons = trans_c12.generated_files()
+    ok = common.build_generated(ctx, files, trans_c12.GEN_TARGETS, trans_c12.N_OBLIGATIONS)
+    ctx.count("translated-definitions:%d" % trans_c12.N_OBLIGATIONS)
+    if reasons:
+        ctx.notes["untranslatable"] = reasons
+    if not ok and ctx.broken_obligations:
+        ctx.broken_obligations[-1]["obligation"] = (
+            "MenpoModel.GenProps.C12Src: the translation of the current source text of menpo/model/gmrf.py "
+            "(_covariance_matrix_inverse, _create_*_precision, GMRFVectorModel / GMRFModel .__init__, _data_to_matrix, mean, "
+            "mahalanobis_distance, _mahalanobis_distance, principal_components_analysis) no longer equals the definitions "
+            "the C12 theorems are about")
+        if reasons:
+            ctx.broken_obligations[-1]["untranslatable"] = reasons
+    ctx.count("translation:" + ("ok" if ok else "broken"))
 
 
 def run(ctx):
     common.prepare_lean(ctx, PROP, IMPORTS, THEOREMS, generated=generated)
-    ctx.trusted += ["scipy.sparse.bsr_matrix denotation (duplicates summed; spot-verified every case)",
+    ctx.trusted += ["harness/py2lean2.py + py2lean2t.py (translator) and harness/trans_c12.py (vocabulary): the source text of "
+                    "gmrf.py is what Generated/C12Src.lean says",
+                    "scipy.sparse.bsr_matrix denotation (duplicates summed; spot-verified every case)",
                     "np.linalg.inv / np.linalg.svd / np.cov contracts (spot-verified; the model inverts exactly and checks C*B=1)"]
     lines, pending = [], {}
     corpus(ctx, lines, pending)
